@@ -384,9 +384,10 @@ def _worker(task):
             rec = dict(tag=tag, off=off, vi=vi, status=r["status"], drift=r.get("drift", []), err=r.get("err"), depth=len(hist))
             if r["status"] == "violation":
                 rec["findings"] = r["findings"]
-                if detailed < 40:                       # enough to attribute; the rest is counted
+                rec["hist"], rec["cmd"] = hist, cmd
+                if detailed < 40:                       # model post-states are bulky: the rest is re-read from the file if needed
                     detailed += 1
-                    rec["group"] = (hist, cmd, alts)
+                    rec["alts"] = alts
             out.append(rec)
     return tag, out, dict(per_op)
 
@@ -501,12 +502,14 @@ def consts(scen, d, mh, vals, ws, bug="FALSE"):
 
 
 class Lookup:
-    """finds the exported group of a transition (history, operation) in an export file; built only when a violation needs attribution"""
+    """finds the exported group of a transition (history, operation) in an export file; the index is built only when a violation
+    needs attribution"""
 
     def __init__(self, path):
         self.path, self.idx = path, None
 
     def get(self, cmds, cmd):
+        """-> (hist, cmd, alts) or None"""
         if self.idx is None:
             self.idx = {}
             pos = 0
@@ -514,16 +517,26 @@ class Lookup:
                 for raw in f:
                     off, pos = pos, pos + len(raw)
                     if raw.startswith(b'"{') and not raw.startswith(b'"{\\"init\\"'):
-                        rec = _parse(raw.decode())
+                        ip = raw.find(b'\\"post\\":')
+                        rec = json.loads(json.loads(raw[:raw.rfind(b',\\"res\\":', 0, ip)].decode() + '}"'))     # hist and cmd only
                         self.idx.setdefault(_J([h["cmd"] for h in rec["hist"]] + [rec["cmd"]]), off)
         off = self.idx.get(_J(list(cmds) + [cmd]))
         if off is None:
             return None
-        want = _J(list(cmds) + [cmd])
-        for g in _read_groups(self.path, off, off + (1 << 22)):
-            if _J([h["cmd"] for h in g[1]] + [g[2]]) == want:
-                return g[1:]
-        return None
+        hist, alts = None, []
+        with open(self.path, "rb") as f:       # the other outcomes of the same operation are later lines of the same pre-state block
+            f.seek(off)
+            for raw in f:
+                if not raw.startswith(b'"{'):
+                    break
+                rec = _parse(raw.decode())
+                if hist is None:
+                    hist = rec["hist"]
+                elif rec["hist"] != hist:
+                    break
+                if rec["cmd"] == cmd:
+                    alts.append((rec["res"], rec["post"]))
+        return hist, cmd, alts
 
 
 def _J(x):
@@ -601,7 +614,7 @@ def check(pid, argv=None):
     # consequences, not new findings.
     status = collections.Counter()
     drift = collections.Counter()
-    viol, undetailed = [], collections.Counter()
+    viol = []
     for r in results:
         status[r["status"]] += 1
         if r["status"] == "machinery":
@@ -609,11 +622,7 @@ def check(pid, argv=None):
         for d in r["drift"]:
             drift[d] += 1
         if r["status"] == "violation":
-            if "group" in r:
-                viol.append(r)
-            else:
-                for k, _ in r["findings"]:
-                    undetailed[k] += 1
+            viol.append(r)
     viol.sort(key=lambda r: (r["depth"], r["tag"], r["off"], r["vi"]))
     roots, cache, derived, lookups = {}, {}, 0, {}
 
@@ -623,8 +632,7 @@ def check(pid, argv=None):
             run.report(key, d, dict(init=files[tag][1], variant=vi, hist=hist, cmd=cmd, alts=alts))
 
     for r in viol:
-        tag, vi = r["tag"], r["vi"]
-        hist, cmd, alts = r["group"]
+        tag, vi, hist, cmd = r["tag"], r["vi"], r["hist"], r["cmd"]
         cmds = [h["cmd"] for h in hist]
         rs = roots.setdefault((tag, vi), set())
         if any(_J(cmds[:k]) in rs for k in range(1, len(cmds) + 1)):
@@ -644,11 +652,8 @@ def check(pid, argv=None):
                 break
         else:
             rs.add(_J(cmds + [cmd]))
+            alts = r.get("alts") or lk.get(cmds, cmd)[2]
             emit(tag, vi, hist, cmd, alts, r)
-    reported = {v[0] for v in run.violations} | set(run.known_hits)
-    for k, n in undetailed.items():          # more violating transitions than were returned in detail: never drop a key silently
-        if not any(k == v[0] for v in run.violations):
-            run.report(k, f"{n} further violating transition(s) with this key (not attributed to a first failing step)", None)
     run.notes["replay_status"] = dict(status)
     run.notes["violations_that_follow_an_earlier_violating_step"] = derived
     run.notes["model-drift"] = dict(drift)
